@@ -166,7 +166,7 @@ theorem Gap.replace_text (g : Gap f a init fr l0 P A N r0 ps ns) (hi : f.Inv) {b
   refine ⟨((f.dropSubtree a).setValue P.handle (.text (ps ++ bs))).spliceOut b, ?_, ?_⟩
   · unfold insertAfter
     simp only [hpar, hsc1, hsr1, hnx1, hpb, hnb, hrc1, Bool.not_true, Bool.false_eq_true, if_false,
-      Bool.false_and, addConsolidate_prev_merge _ hcons1 htb1 htp1, if_true]
+      Bool.false_and, addConsolidate_prev_merge _ hcons1 htb1 htp1 (Ne.symm ra.neP), if_true]
   · -- the valid forest in which `b` has been merged into `P`
     have htp : f.textOf P.handle = some ps := by
       have lcP : Loc f.roots P.handle (init ++ [fr]) l0 P (A :: N :: r0) := ⟨by rw [g.loc.eq]; simp, rfl⟩
